@@ -74,20 +74,21 @@ Proof.
   destruct (if st then guard_track_start g t else Some g) as [g1|]; [|discriminate].
   intro E. inversion E; subst r; clear E.
   eexists. split; [reflexivity|].
-  unfold same_ns, enter_ns, fb_start_foreign, leave_ns, is_ip_enter, text_type_adjust. cbn [ns_stack cur_ns guard strict].
+  unfold same_ns, enter_ns, fb_start_foreign, leave_foreign, leave_ns, is_ip_enter, text_type_adjust. cbn [ns_stack cur_ns guard strict].
   destruct (tt_at tt_get_feedback_for_start_tag 0 t); [cbn; repeat split; reflexivity|].
   destruct (tt_at tt_get_feedback_for_start_tag 1 t); [cbn; repeat split; reflexivity|].
   destruct (negb (ns_eqb cur Html)); [|cbn; repeat split; reflexivity].
-  destruct (causes_foreign_content_exit t); [destruct (tl stk); cbn; repeat split; reflexivity|].
+  destruct (causes_foreign_content_exit t); [destruct (tl (drop_foreign stk)); cbn; repeat split; reflexivity|].
   split_ifs.
 Qed.
 Lemma fb_end_strict_agrees s s' t : same_ns s s' -> snd (fb_end s t) = snd (fb_end s' t) /\ same_ns (fst (fb_end s t)) (fst (fb_end s' t)).
 Proof.
   intros [Hn Hc]. destruct s as [stk cur g st], s' as [stk' cur' g' st']. cbn in Hn, Hc. subst stk' cur'.
-  unfold fb_end, same_ns, check_ip_exit, should_leave_ns, leave_ns. cbn [strict guard ns_stack cur_ns].
+  unfold fb_end, same_ns, check_ip_exit, should_leave_ns, leave_foreign, leave_ns. cbn [strict guard ns_stack cur_ns].
   destruct st, st'; cbn [ns_stack cur_ns guard strict];
     (destruct (ns_eqb cur Html);
      [ destruct stk as [|x [|prev r]]; cbn [fst snd ns_stack cur_ns tl]; try (repeat split; reflexivity);
        destruct (_ || _); [destruct r; cbn; repeat split; reflexivity|]; destruct (_ && _); cbn; repeat split; reflexivity
-     | destruct (_ || _); [|cbn; repeat split; reflexivity]; destruct (tl stk); cbn; repeat split; reflexivity ]).
+     | destruct (_ || _); [|cbn; repeat split; reflexivity]; destruct (tt_at tt_should_leave_ns 2 t);
+       [destruct (tl (drop_foreign stk))|destruct (tl stk)]; cbn; repeat split; reflexivity ]).
 Qed.
